@@ -258,7 +258,8 @@ def _dumps_kvn(data, **kwargs):
     content = []
     for i, data in enumerate(data):
 
-        data.form = "cartesian"
+        # Cartesian coordinates are written; the caller's ephemeris keeps its form
+        points = [orb.copy(form="cartesian") for orb in data]
 
         # Every date of the segment is written in the time system it announces
         scale = data.start.scale.name
@@ -275,7 +276,7 @@ def _dumps_kvn(data, **kwargs):
 
         text = []
         cov = []
-        for orb in data:
+        for orb in points:
             text.append(
                 "{date:{dfmt}} {orb[0]:{fmt}} {orb[1]:{fmt}} {orb[2]:{fmt}} {orb[3]:{fmt}} {orb[4]:{fmt}} {orb[5]:{fmt}}".format(
                     date=orb.date.change_scale(scale),
@@ -344,7 +345,10 @@ def _dumps_xml(data, **kwargs):
 
         data_tag = ET.SubElement(segment, "data")
 
-        for el in data:
+        # Cartesian coordinates are written, whatever the form of the ephemeris
+        points = [el.copy(form="cartesian") for el in data]
+
+        for el in points:
             statevector = ET.SubElement(data_tag, "stateVector")
             epoch = ET.SubElement(statevector, "EPOCH")
             epoch.text = el.date.change_scale(scale).strftime(DATE_FMT_DEFAULT)
@@ -364,7 +368,7 @@ def _dumps_xml(data, **kwargs):
                 )
                 x.text = f"{getattr(el, v) / units.km:0.6f}"
 
-        for el in data:
+        for el in points:
             if el.cov is not None:
                 cov = ET.SubElement(data_tag, "covarianceMatrix")
 
